@@ -5,8 +5,10 @@ usage: mutbank.py [name-substring]   - applies each one-hunk mutation of selftes
 import json, os, shutil, subprocess, sys, tempfile
 
 VERIF = os.path.dirname(os.path.dirname(os.path.abspath(__file__)))
-bank = json.load(open(os.path.join(VERIF, "selftest", "mutants.json")))
-flt = sys.argv[1] if len(sys.argv) > 1 else ""
+BENIGN = "--benign" in sys.argv
+args = [a for a in sys.argv[1:] if a != "--benign"]
+bank = json.load(open(os.path.join(VERIF, "selftest", "benign.json" if BENIGN else "mutants.json")))
+flt = args[0] if args else ""
 results = []
 for m in bank["mutants"]:
     if flt and flt not in m["name"]:
@@ -17,13 +19,22 @@ for m in bank["mutants"]:
         subprocess.check_call(["git", "-C", "/repo", "worktree", "add", "--detach", dst, "HEAD"], stdout=subprocess.DEVNULL, stderr=subprocess.DEVNULL)
         path = os.path.join(dst, m["file"])
         src = open(path).read()
-        if m["old"] not in src:
+        edits = m.get("edits") or [{"old": m["old"], "new": m["new"]}]
+        if any(e["old"] not in src for e in edits):
             results.append((m["name"], "SKIPPED (pattern not found)", []))
             continue
-        open(path, "w").write(src.replace(m["old"], m["new"], 1))
+        for e in edits:
+            src = src.replace(e["old"], e["new"], 1)
+        open(path, "w").write(src)
         env = dict(os.environ, IPP_REPO=dst, IPP_EVIDENCE_DIR=os.path.join(tmp, "ev"))
         fired = []
         status = "MISSED"
+        if BENIGN:
+            r = subprocess.run([os.path.join(VERIF, "check"), "all"], env=env, stdout=subprocess.PIPE, stderr=subprocess.STDOUT, text=True)
+            lines = [l.strip() for l in r.stdout.splitlines() if l.strip().startswith("[") or l.startswith("ERROR")]
+            status = "silent" if r.returncode == 0 else ("DOES-NOT-COMPILE" if r.returncode == 2 else "FALSE-ALARM")
+            results.append((m["name"], status, [l[:230] for l in lines[:4]]))
+            continue
         for pid in m["expect"]:
             r = subprocess.run([os.path.join(VERIF, "check"), pid], env=env, stdout=subprocess.PIPE, stderr=subprocess.STDOUT, text=True)
             rules = sorted({l.split("]")[0].strip()[1:] for l in r.stdout.splitlines() if l.strip().startswith("[")})
@@ -38,7 +49,7 @@ for m in bank["mutants"]:
         subprocess.call(["git", "-C", "/repo", "worktree", "remove", "--force", os.path.join(tmp, "repo")], stdout=subprocess.DEVNULL, stderr=subprocess.DEVNULL)
         shutil.rmtree(tmp, ignore_errors=True)
 for name, status, fired in results:
-    print("%-44s %-18s %s" % (name, status, " ".join(fired)))
-missed = [r for r in results if r[1] not in ("caught",) and not r[1].startswith("SKIPPED")]
-print("%d mutants, %d caught, %d not caught" % (len(results), sum(1 for r in results if r[1] == "caught"), len(missed)))
+    print("%-44s %-18s %s" % (name, status, ("\n      ".join([""] + fired) if BENIGN else " ".join(fired))))
+missed = [r for r in results if r[1] not in ("caught", "silent") and not r[1].startswith("SKIPPED")]
+print("%d mutants, %d %s, %d not" % (len(results), sum(1 for r in results if r[1] in ("caught", "silent")), "silent" if BENIGN else "caught", len(missed)))
 sys.exit(1 if missed else 0)
